@@ -474,7 +474,11 @@ def emit_check_violations(T, oRules):
                 lo = hi = int(v.get_line_number() or 0)
             out.append({"rule": oRule.unique_id, "line": int(v.get_line_number() or 0), "lo": lo, "hi": hi, "sol": str(v.get_solution()),
                         "sev": oRule.severity.name, "err": oRule.severity.type == severity.error_type, "phase": int(oRule.phase or 0)})
-    T.emit({"e": "CheckViol", "v": out})
+    ev = {"e": "CheckViol", "v": out}
+    if getattr(T, "check_table", False):
+        ev["table"] = [{"rule": r.unique_id, "phase": int(r.phase or 0), "sub": int(r.subphase), "err": r.severity.type == severity.error_type, "dis": bool(r.disable),
+                        "cls": rule_info(T, r)["cls"]} for r in oRules.rules if not getattr(r, "deprecated", False)]
+    T.emit(ev)
 
 
 def fix_only_sel(oRule, dFixOnly):
@@ -657,13 +661,28 @@ def install():
         if T is None or T.muted:
             return orig_check(self, bAllPhases, lSkipPhase)
         T.emit({"e": "CheckBegin", "ap": bool(bAllPhases), "skip": sorted(int(x) for x in (lSkipPhase or []))})
+        if getattr(T, "shuffle", None) is not None:
+            # C06 probe: analyse the rules in another order (phase / subphase grouping is by attribute, not by list position)
+            import random as _random
+
+            _random.Random(T.shuffle).shuffle(self.rules)
+        D0 = deep_digest(self.oVhdlFile.lAllObjects) if getattr(T, "deep_ends", False) else None
         try:
             ret = orig_check(self, bAllPhases, lSkipPhase)
         except Exception as e:
             T.emit({"e": "CheckAbort", "exc": type(e).__name__})
             raise
+        if D0 is not None:
+            what = deep_diff(D0, deep_digest(self.oVhdlFile.lAllObjects))
+            if what is not None:
+                T.emit({"e": "CheckImpure", "what": what})
         T.emit({"e": "CheckEnd", "last": int(self.lastPhaseRan), "ran": int(self.iNumberRulesRan), "viol": bool(self.violations)})
         if T.check_viol:
+            emit_check_violations(T, self)
+        if getattr(T, "repeat_check", False):
+            # C06 probe: the same analysis once more on the same objects must report the same
+            self.clear_violations()
+            ret = orig_check(self, bAllPhases, lSkipPhase)
             emit_check_violations(T, self)
         return ret
 
